@@ -66,6 +66,7 @@ func plans(id, tier string) (Plan, bool) {
 			{Pkg: pkgV2, Harness: "c02_corpus", Params: "t=0.8", Shards: 16},
 			{Pkg: pkgV2, Harness: "c02_corpus", Params: "t=0.8;families=window;split=4", Shards: 16},
 			{Pkg: pkgV2, Harness: "c02_corpus", Params: "t=0.8;families=selfrepeat;ndocs=" + fmt.Sprint(pick(60, 431)), Shards: 16},
+			{Pkg: pkgV2, Harness: "c02_corpus", Params: "t=0.8;families=clusters;ndocs=" + fmt.Sprint(pick(60, 431)), Shards: 16},
 			{Pkg: pkgV2, Harness: "c02_corpus", Params: "t=0.8;families=boundary;ndocs=" + fmt.Sprint(pick(100, 431)), Shards: 16},
 			{Pkg: pkgV2, Harness: "c02_corpus", Params: "t=0.9;families=boundary;ndocs=" + fmt.Sprint(pick(40, 431)), Shards: 16},
 			{Pkg: pkgV2, Harness: "c02_corpus", Params: "t=0.7;families=boundary;ndocs=" + fmt.Sprint(pick(40, 431)), Shards: 16},
@@ -96,6 +97,7 @@ func plans(id, tier string) (Plan, bool) {
 			{Pkg: pkgV2, Harness: "c04_history", Params: "trace=wildcard", Shards: pick(4, 12)},
 			{Pkg: pkgV2, Harness: "c04_config", Shards: pick(4, 8)},
 			{Pkg: pkgV2, Harness: "c04_dictwords", Shards: 8},
+			{Pkg: pkgV2, Harness: "c04_numbering", Shards: 16},
 			{Pkg: pkgV2, Harness: "c04_trace", Shards: pick(4, 8)},
 			{Pkg: pkgV2, Harness: "c04_processes", Shards: 1, MaxProcs: 4},
 		}...)}, true
@@ -114,6 +116,8 @@ func plans(id, tier string) (Plan, bool) {
 			{Pkg: pkgV2, Harness: "c06_tokens", Shards: pick(4, 16)},
 			{Pkg: pkgV2, Harness: "c06_history", Shards: 2},
 			{Pkg: pkgV2, Harness: "c06_match", Params: map[bool]string{false: "docs=431;positions=1", true: "docs=431;positions=12"}[th], Shards: 16},
+			// CRLF line ends in text and edit (no word splits: a hyphen before CR LF is not a line-end hyphen)
+			{Pkg: pkgV2, Harness: "c06_match", Params: map[bool]string{false: "eol=crlf;docs=431;positions=1;kinds=notice,date,marker", true: "eol=crlf;docs=431;positions=4;kinds=notice,date,marker,spelling,https"}[th], Shards: 16},
 			// the same documents with every paragraph on one line (lines of hundreds of words)
 			{Pkg: pkgV2, Harness: "c06_match", Params: map[bool]string{false: "layout=unwrap;docs=431;positions=1;kinds=marker,split,notice", true: "layout=unwrap;docs=431;positions=6"}[th], Shards: 16},
 			{Pkg: pkgV2, Harness: "c06_match", Params: map[bool]string{false: "docs=4;maxbytes=1200;positions=0;kinds=notice,marker,split,splitnotice", true: "docs=60;maxbytes=6000;positions=0"}[th], Shards: 16},
@@ -130,6 +134,7 @@ func plans(id, tier string) (Plan, bool) {
 				{Pkg: pkgV2, Harness: "c07_corpus", Params: "t=0.8;families=partnoise,exact,truncate;contexts=huge;ndocs=120", Shards: 16},
 				{Pkg: pkgV2, Harness: "c07_corpus", Params: "t=0.8;families=exact,partnoise;contexts=pow2;ndocs=40", Shards: 16},
 				{Pkg: pkgV2, Harness: "c07_corpus", Params: "t=0.8;families=exact,partnoise;contexts=distinct;ndocs=24", Shards: 16},
+				{Pkg: pkgV2, Harness: "c07_corpus", Params: "t=0.8;families=clusters;ndocs=120", Shards: 16},
 			}}, true
 		}
 		return Plan{Level: "exploration", Jobs: []Job{
@@ -140,6 +145,7 @@ func plans(id, tier string) (Plan, bool) {
 			{Pkg: pkgV2, Harness: "c07_corpus", Params: "t=0.8;families=partnoise,exact,truncate;contexts=huge;ndocs=" + fmt.Sprint(pick(24, 120)), Shards: 16},
 			{Pkg: pkgV2, Harness: "c07_corpus", Params: "t=0.8;families=exact,partnoise;contexts=pow2;ndocs=" + fmt.Sprint(pick(6, 40)), Shards: 16},
 			{Pkg: pkgV2, Harness: "c07_corpus", Params: "t=0.8;families=exact;contexts=distinct;ndocs=8", Shards: 8},
+			{Pkg: pkgV2, Harness: "c07_corpus", Params: "t=0.8;families=clusters;ndocs=" + fmt.Sprint(pick(24, 120)), Shards: 16},
 		}}, true
 	case "C08":
 		return Plan{Level: "fault_enumeration", Jobs: []Job{
@@ -211,6 +217,7 @@ func plans(id, tier string) (Plan, bool) {
 			{Pkg: pkgV2, Harness: "c11_tokens", Shards: pick(8, 16)},
 			{Pkg: pkgV2, Harness: "c11_match", Params: "families=exact,scenario,recase" + map[bool]string{false: "", true: ",concat,edit1"}[th], Shards: 16},
 			{Pkg: pkgV2, Harness: "c11_match", Params: "families=window;split=4", Shards: 16},
+			{Pkg: pkgV2, Harness: "c11_match", Params: "families=longnotice;split=3", Shards: 8},
 			{Pkg: pkgV2, Harness: "c11_match", Params: "families=exact,scenario,recase;shared=yes", Shards: 16},
 		}}, true
 	case "C12":
@@ -252,6 +259,10 @@ func plans(id, tier string) (Plan, bool) {
 		// many known values that all match one text (fan-out beyond any pool or limit inside the library)
 		jobs = append(jobs, Job{Pkg: pkgSC, Harness: "c14_race", Params: "values=70", Race: true, MaxProcs: 16})
 		jobs = append(jobs, Job{Pkg: pkgSC, Harness: "c14_sched", Instr: "v1", Params: "scenario=12;values=70;policy=delay;budget=0"})
+		// queries of more than 4 KB, every query repeated after the join
+		jobs = append(jobs, Job{Pkg: pkgSC, Harness: "c14_sched", Instr: "v1", Params: fmt.Sprintf("scenario=13;policy=delay;budget=%d", pick(2, 3)), Shards: pick(2, 8)})
+		jobs = append(jobs, Job{Pkg: pkgSC, Harness: "c14_sched", Instr: "v1", Params: fmt.Sprintf("scenario=14;policy=delay;budget=%d", pick(1, 2)), Shards: pick(2, 8)})
+		jobs = append(jobs, Job{Pkg: pkgSC, Harness: "c14_sched", Instr: "v1", Params: fmt.Sprintf("scenario=0;reprobe=yes;policy=delay;budget=%d", pick(2, 3)), Shards: pick(2, 8)})
 		// more than a megabyte of registered text (2 values of 540 KB), small queries
 		jobs = append(jobs, Job{Pkg: pkgSC, Harness: "c14_sched", Instr: "v1", Params: fmt.Sprintf("scenario=0;values=2;valuebytes=540000;policy=delay;budget=%d", pick(1, 1)), Shards: pick(8, 16)})
 		jobs = append(jobs, Job{Pkg: pkgExtV1, Harness: "c14_license_sched", Instr: "v1", Shards: pick(4, 16)})
